@@ -65,6 +65,7 @@ type WorkerStats struct {
 	ToolTrouble  []string       `json:"tool_trouble"`
 	FirstSeed    uint64         `json:"first_seed"`
 	MinimiseRuns int            `json:"minimise_runs"`
+	Truncated    int            `json:"truncated_runs"`
 }
 
 type ReportedViol struct {
@@ -216,7 +217,12 @@ func TestWorker(t *testing.T) {
 				}
 			}
 			if !judged {
-				st.ToolTrouble = append(st.ToolTrouble, fmt.Sprintf("run %d hit the %s limit", idx, res.Outcome))
+				// a run cut off by its step bound is a bounded run, not a verdict and not a malfunction: it is counted
+				// (evidence: truncated_runs); only a batch in which more than 1 % of the runs are cut off is tool trouble
+				st.Truncated++
+				if st.Truncated*100 > st.Runs+100 {
+					st.ToolTrouble = append(st.ToolTrouble, fmt.Sprintf("%d of %d runs hit their step limit (last: run %d, %s)", st.Truncated, st.Runs, idx, res.Outcome))
+				}
 			}
 		}
 		if len(st.Samples) < 2 && k%7 == 0 {
